@@ -16,6 +16,7 @@ import (
 	"math/rand"
 	"os"
 	"runtime"
+	"runtime/debug"
 	"sort"
 	"strings"
 	"sync"
@@ -35,6 +36,7 @@ const refLimit = 1500 // reference trace entries (nested ones included) above wh
 type replayCase struct {
 	Program   *Program `json:"program"`
 	Entry     int      `json:"entry"`
+	Preset    bool     `json:"response_preset"` // the query context already carried a response (id 1) when the sequence started
 	Expected  *result  `json:"expected_by_reference,omitempty"`
 	Observed  *result  `json:"observed_from_mosdns,omitempty"`
 	Minimized *Program `json:"minimized_program,omitempty"`
@@ -59,6 +61,7 @@ type stats struct {
 	withErr     int64
 	withResp    int64
 	emptyTraces int64
+	presetRuns  int64
 }
 
 func newStats() *stats {
@@ -67,7 +70,7 @@ func newStats() *stats {
 
 var (
 	seenKeysMu sync.Mutex
-	seenKeys   = map[string]bool{}
+	seenKeys   = map[string]chan struct{}{}
 	sampleMu   sync.Mutex
 	sampled    = map[string]bool{}
 )
@@ -115,10 +118,11 @@ func compare(exp, obs *result, runaway bool, panicked any) (string, string) {
 type failure struct {
 	key, what string
 	entry     int
+	preset    bool
 	exp, obs  *result
 }
 
-func checkProgram(w *world, p *Program, onlyEntry int, st *stats) *failure {
+func checkProgram(w *world, p *Program, onlyEntry, onlyPreset int, st *stats) *failure {
 	rp, err := refCompile(p)
 	if err != nil {
 		rep.Inconclusive("harness bug: reference cannot parse generated program %s: %v", p.Origin, err)
@@ -139,49 +143,66 @@ func checkProgram(w *world, p *Program, onlyEntry int, st *stats) *failure {
 		if onlyEntry >= 0 && e != onlyEntry {
 			continue
 		}
-		ft := newFeats()
-		exp, steps, ok := rp.exec(e, refLimit, ft)
-		if !ok {
-			if st != nil {
-				st.discarded++
+		stateMatters := false
+		for _, preset := range []bool{false, true} {
+			if onlyPreset >= 0 && preset != (onlyPreset == 1) {
+				continue
 			}
-			continue
-		}
-		obs, runaway, panicked := realExec(seqs[e], 4*steps+64)
-		if st != nil {
-			st.evals++
-			st.traceTotal += int64(steps)
-			if steps > st.maxTrace {
-				st.maxTrace = steps
+			if preset && onlyPreset < 0 && !stateMatters {
+				continue // nothing in the execution looked at the response: the variant adds nothing
 			}
-			if steps == 0 {
-				st.emptyTraces++
+			ft := newFeats()
+			exp, steps, ok := rp.exec(e, preset, refLimit, ft)
+			if !ok {
+				if st != nil {
+					st.discarded++
+				}
+				continue
 			}
-			if exp.Err != "-" {
-				st.withErr++
-			}
-			if exp.Resp != "-" {
-				st.withResp++
-			}
-			mergeFeats(st.ft, ft)
 			wrapN := 0
 			for _, n := range ft.wrapKinds {
 				wrapN += n
 			}
-			if steps >= 3 && (ft.jump+ft.gotoN+ft.retPending+ft.retTop+wrapN+ft.negEval) > 0 {
-				st.nontrivial++
-				rep.Nontrivial(rp.fingerprint(e))
-				for name, n := range map[string]int{"jump": ft.jump, "goto": ft.gotoN, "return": ft.retPending + ft.retTop, "wrapper": wrapN, "negation": ft.negEval} {
-					if n > 0 {
-						st.nonTrivBy[name]++
-					}
+			stateMatters = ft.hEval > 0 || wrapN > 0
+			obs, runaway, panicked := realExec(seqs[e], preset, 4*steps+64)
+			if st != nil {
+				st.evals++
+				if preset {
+					st.presetRuns++
 				}
-				maybeSample(p, e, &exp, ft)
+				st.traceTotal += int64(steps)
+				if steps > st.maxTrace {
+					st.maxTrace = steps
+				}
+				if steps == 0 {
+					st.emptyTraces++
+				}
+				if exp.Err != "-" {
+					st.withErr++
+				}
+				if exp.Resp != "-" {
+					st.withResp++
+				}
+				mergeFeats(st.ft, ft)
+				if steps >= 3 && (ft.jump+ft.gotoN+ft.retPending+ft.retTop+wrapN+ft.negEval) > 0 {
+					st.nontrivial++
+					fp := rp.fingerprint(e)
+					if preset {
+						fp += "|preset"
+					}
+					rep.Nontrivial(fp)
+					for name, n := range map[string]int{"jump": ft.jump, "goto": ft.gotoN, "return": ft.retPending + ft.retTop, "wrapper": wrapN, "negation": ft.negEval} {
+						if n > 0 {
+							st.nonTrivBy[name]++
+						}
+					}
+					maybeSample(p, e, &exp, ft)
+				}
 			}
-		}
-		if key, what := compare(&exp, &obs, runaway, panicked); key != "" {
-			ex, ob := exp, obs
-			return &failure{key: key, what: what, entry: e, exp: &ex, obs: &ob}
+			if key, what := compare(&exp, &obs, runaway, panicked); key != "" {
+				ex, ob := exp, obs
+				return &failure{key: key, what: what, entry: e, preset: preset, exp: &ex, obs: &ob}
+			}
 		}
 	}
 	return nil
@@ -267,7 +288,7 @@ func referenced(p *Program, tag string) bool {
 	return false
 }
 
-func shrink(w *world, p *Program, entry int, key string) (*Program, int, *failure) {
+func shrink(w *world, p *Program, entry int, preset bool, key string) (*Program, int, *failure) {
 	cur := cloneProgram(p)
 	entryTag := cur.Seqs[entry].Tag
 	entryOf := func(q *Program) int {
@@ -283,7 +304,7 @@ func shrink(w *world, p *Program, entry int, key string) (*Program, int, *failur
 		if e < 0 {
 			return nil
 		}
-		f := checkProgram(w, q, e, nil)
+		f := checkProgram(w, q, e, boolInt(preset), nil)
 		if f != nil && f.key == key {
 			return f
 		}
@@ -348,13 +369,22 @@ func shrink(w *world, p *Program, entry int, key string) (*Program, int, *failur
 
 func report(w *world, p *Program, f *failure) {
 	seenKeysMu.Lock()
-	first := !seenKeys[f.key]
-	seenKeys[f.key] = true
+	ch, seen := seenKeys[f.key]
+	if !seen {
+		ch = make(chan struct{})
+		seenKeys[f.key] = ch
+	}
 	seenKeysMu.Unlock()
-	rc := replayCase{Program: p, Entry: f.entry, Expected: f.exp, Observed: f.obs}
-	what := f.what + " [program " + p.Origin + ", entry " + p.Seqs[f.entry].Tag + "]"
-	if first && f.exp != nil {
-		if mp, me, mf := shrink(w, p, f.entry, f.key); mp != nil {
+	rc := replayCase{Program: p, Entry: f.entry, Preset: f.preset, Expected: f.exp, Observed: f.obs}
+	what := f.what + " [program " + p.Origin + ", entry " + p.Seqs[f.entry].Tag + presetNote(f.preset) + "]"
+	if seen {
+		<-ch // the first reporter of this key writes the (minimized) witness
+		rep.Violation(f.key, what, rc)
+		return
+	}
+	defer close(ch)
+	if f.exp != nil {
+		if mp, me, mf := shrink(w, p, f.entry, f.preset, f.key); mp != nil {
 			rc.Minimized, rc.MinEntry, rc.MinExp, rc.MinObs = mp, me, mf.exp, mf.obs
 			what += "; minimized witness (entry " + mp.Seqs[me].Tag + "): " + describe(mp) + " -> " + mf.what
 		}
@@ -396,6 +426,7 @@ func main() {
 	rep = evid.New("C06", "exploration")
 	caselog = evid.OpenCaseLog()
 	registerQuickSetups()
+	debug.SetMaxStack(256 << 20) // a walker that recurses forever must die quickly, not eat 16 x 1 GB
 	rep.SetRule("programs = corner-case grids (G1 control grid {terminator in callee} x {jump,goto} x {terminator in caller} x {no wrapper, 9 wrapper kinds} x {jump,goto}; G2 wrapper inside a jumped sequence; G3 every matcher tuple of length 0..3 over {T,F,E,has-response,_true,_false} x {plain,!}; G4 nesting depth 1..6 with a wrapper at every level; G5 top-level return/accept/reject; G6 stacked wrappers) + seeded random programs (1-6 sequences x 0-7 rules x 0-3 matchers, DAG references in build order); each rendered to rule text with random white space / '!' spelling / '$tag' vs '$tag args' (quick-configure) vs 'type args' (quick-setup) and loaded via NewSequence, the plugin-type registry or yaml->WeakDecode; every sequence of a program is executed as a top-level entry = one evaluation. Non-trivial = the reference trace has >= 3 entries and the execution actually performed at least one jump/goto/return/wrapper/negated-matcher evaluation; distinct = canonical text (labels, ids, white space, text form removed) of the sequences reachable from the entry.")
 	rep.Assume("the reference interpreter (cmd/c06/ref.go: own text parser, explicit continuation stack) encodes the property statement; 'goto never comes back' is read as: all pending jump returns are dropped (goto = jump + accept), as DESIGN.md C06 states")
 	rep.Assume("harness plugin behaviour (what each test matcher/action/wrapper does with the response and with the errors it sees) is specified twice, in plugins.go and in ref.go; a discrepancy there would show as a false alarm on the unchanged tree, not as a missed violation")
@@ -411,7 +442,7 @@ func main() {
 		w := newWorld()
 		for i := 0; i < 20; i++ { // repeated: the conc wrapper is schedule dependent
 			st := newStats()
-			if f := checkProgram(w, rc.Program, rc.Entry, st); f != nil {
+			if f := checkProgram(w, rc.Program, rc.Entry, boolInt(rc.Preset), st); f != nil {
 				report(w, rc.Program, f)
 				break
 			}
@@ -421,7 +452,7 @@ func main() {
 	}
 
 	tmpl := templates()
-	nRandom := int64(rep.Pick(36000, 1200000))
+	nRandom := int64(rep.Pick(30000, 1000000))
 	total := int64(len(tmpl)) + nRandom
 	workers := runtime.GOMAXPROCS(0)
 	if workers > 16 {
@@ -433,6 +464,7 @@ func main() {
 	const chunk = 256
 	var nextChunk atomic.Int64
 	var stop atomic.Bool
+	var evalsPublished atomic.Int64 // for the watchdog path only
 	allStats := make([]*stats, workers)
 	current := make([]atomic.Pointer[Program], workers)
 	beat := make([]atomic.Int64, workers)
@@ -444,7 +476,10 @@ func main() {
 		go func(wi int) {
 			defer wg.Done()
 			w := newWorld()
+			published := int64(0)
 			for !stop.Load() {
+				evalsPublished.Add(st.evals - published)
+				published = st.evals
 				start := nextChunk.Add(chunk) - chunk
 				if start >= total {
 					return
@@ -465,7 +500,7 @@ func main() {
 					p := render(lp, rng)
 					current[wi].Store(p)
 					beat[wi].Add(1)
-					if f := checkProgram(w, p, -1, st); f != nil {
+					if f := checkProgram(w, p, -1, -1, st); f != nil {
 						report(w, p, f)
 						if rep.Violations() >= 12 {
 							stop.Store(true)
@@ -494,6 +529,7 @@ func main() {
 						stuck[i]++
 						if stuck[i] >= 12 {
 							rep.Inconclusive("watchdog: program %s did not finish within 60 s (sequence execution neither ends nor reaches a harness plugin): %s", p.Origin, describe(p))
+							rep.Eval(int(evalsPublished.Load()))
 							rep.Finish()
 						}
 					} else {
@@ -518,6 +554,7 @@ func main() {
 		tot.withErr += s.withErr
 		tot.withResp += s.withResp
 		tot.emptyTraces += s.emptyTraces
+		tot.presetRuns += s.presetRuns
 		if s.maxTrace > tot.maxTrace {
 			tot.maxTrace = s.maxTrace
 		}
@@ -542,6 +579,7 @@ func main() {
 	rep.Count("executions_ending_in_error", tot.withErr)
 	rep.Count("executions_ending_with_response", tot.withResp)
 	rep.Count("executions_with_empty_trace", tot.emptyTraces)
+	rep.Count("executions_started_with_a_response_already_present", tot.presetRuns)
 	rep.Count("trace_entries_compared", tot.traceTotal)
 	rep.Max("max_trace_entries", int64(tot.maxTrace))
 	rep.Max("max_pending_jump_returns(nesting depth)", int64(ft.maxDepth))
@@ -609,6 +647,13 @@ func main() {
 		}
 	}
 	rep.Finish()
+}
+
+func presetNote(b bool) string {
+	if b {
+		return ", response 1/0/0 present at start"
+	}
+	return ""
 }
 
 func boolInt(b bool) int {
